@@ -1,5 +1,7 @@
 import TangeloModel.Backend
 import TangeloProofs.Lemmas.OpInverse
+import TangeloProofs.Lemmas.Isometry
+import TangeloProofs.CycLaws
 /-!
 # C01 — backend simulation matches the documented gate semantics
 
@@ -91,6 +93,58 @@ theorem bitsMSB_injective (n i j : Nat) (hi : i < 2 ^ n) (hj : j < 2 ^ n) (h : b
   · have hq' : n ≤ q := by omega
     have p : 2 ^ n ≤ 2 ^ q := Nat.pow_le_pow_right (by decide) hq'
     rw [Nat.testBit_lt_two_pow (by omega), Nat.testBit_lt_two_pow (by omega)]
+
+/-! ## every gate and every circuit preserves the total probability -/
+section isometry
+variable {R : Type} [CommRing R] [StarRing R]
+
+/-- **one gate**: any operation of the gate set (any multi-control list, any position) whose qubits are
+    distinct and inside an `n`-qubit register preserves Σ|ψ|², for every `n` and every state -/
+theorem op_isometry (k : Consts R) (L : k.Laws) (S : k.StarLaws) (n : Nat) (o : Op) (h : o.inReg n) (ψ : State R) :
+    normSq n (o.sem k ψ) = normSq n ψ := Op.isometry k L S n o h ψ
+
+/-- **any circuit**: exact outcome probabilities of any gate list sum to the norm of the input state -/
+theorem circuit_isometry (k : Consts R) (L : k.Laws) (S : k.StarLaws) (n : Nat) (ops : List Op)
+    (h : ∀ o ∈ ops, o.inReg n) (ψ : State R) : normSq n (semOps k ops ψ) = normSq n ψ :=
+  semOps_isometry k L S n ops h ψ
+
+end isometry
+
+/-- the same for the amplitudes the model driver computes: frequencies returned by the exact simulation sum to 1
+    for a normalised input -/
+theorem circuit_isometry_exec (n : Nat) (ops : List Op) (h : ∀ o ∈ ops, o.inReg n) (ψ : State Cyc) :
+    normSq n (semOps cycConsts ops ψ) = normSq n ψ :=
+  semOps_isometry cycConsts cycConsts_laws cycConsts_starLaws n ops h ψ
+
+/-- |0…0⟩ on an `n`-qubit register -/
+def zeroState (n : Nat) : State Cyc := fun x => if (List.range n).all (fun q => !x q) then 1 else 0
+
+/-- |0…0⟩ has norm 1 on every register, hence so does the state prepared by any circuit -/
+theorem normSq_zero_state (n : Nat) : normSq n (zeroState n) = 1 := by
+  unfold normSq
+  have h0 : (0 : Nat) ∈ Finset.range (2 ^ n) := Finset.mem_range.mpr (Nat.two_pow_pos n)
+  rw [Finset.sum_eq_single_of_mem 0 h0]
+  · have : (List.range n).all (fun q => !(bitsOf 0) q) = true := by simp [bitsOf]
+    simp [zeroState, this, wt]
+  · intro i hi hne
+    have hlt : i < 2 ^ n := Finset.mem_range.mp hi
+    have : (List.range n).all (fun q => !(bitsOf i) q) = false := by
+      by_contra hc
+      have hall : (List.range n).all (fun q => !(bitsOf i) q) = true := by simpa using hc
+      apply hne
+      apply Nat.eq_of_testBit_eq
+      intro q
+      by_cases hq : q < n
+      · have := List.all_eq_true.mp hall q (List.mem_range.mpr hq)
+        simpa [bitsOf] using this
+      · have hq' : n ≤ q := by omega
+        have p : 2 ^ n ≤ 2 ^ q := Nat.pow_le_pow_right (by decide) hq'
+        rw [Nat.testBit_lt_two_pow (by omega)]; simp
+    simp [zeroState, this, wt]
+
+theorem prepared_state_normalised (n : Nat) (ops : List Op) (h : ∀ o ∈ ops, o.inReg n) :
+    normSq n (semOps cycConsts ops (zeroState n)) = 1 := by
+  rw [circuit_isometry_exec n ops h, normSq_zero_state]
 
 /-! ## non-vacuity -/
 example : intToBinstr .lsqFirst 4 3 true = [true, false, false] := by decide
